@@ -602,8 +602,10 @@ def reportErrors(obj: model.Documentable, errs: Sequence[ParseError], section:st
     errors = obj.system.parse_errors[section]
     reported = obj.system.reported_errors
 
-    if (section, obj.fullName(), phase) not in reported:
-        reported.add((section, obj.fullName(), phase))
+    # The object itself, not its name: a class that is redefined later in its module still has the name of
+    # its replacement when its docstring is parsed.
+    if (section, obj, phase) not in reported:
+        reported.add((section, obj, phase))
         errors.add(obj.fullName())
 
         for err in errs:
